@@ -71,6 +71,7 @@ class World:
         self.family = family
         self.interp = Interp(prog)
         self.uid = 0
+        self.operands: list = []
         if family == "move":
             self.comp_base = prog.cls("CompositeMove")
             self.item_attr = "moves"
